@@ -48,6 +48,11 @@ func c02Alphabet() []TNode {
 		{Path: "src/.terraform/y", Kind: "file", Body: "t"},
 		{Path: "src/.terraform/modules/z", Kind: "file", Body: "m"},
 		{Path: "src/sub/.git/x", Kind: "file", Body: "sg"},
+		{Path: "src/..data", Kind: "file", Body: "dd"},
+		{Path: "src/...", Kind: "file", Body: "ddd"},
+		{Path: "src/..d/x", Kind: "file", Body: "ddx"},
+		{Path: "src/d.x", Kind: "file", Body: "dx"},
+		{Path: "src/d-x", Kind: "dir"},
 	}
 }
 
@@ -60,6 +65,7 @@ func c05Skeleton() []TNode {
 		{Path: "out/f", Kind: "file", Body: "<SELF>"},
 		{Path: "out/dir/g", Kind: "file", Body: "<SELF>"},
 		{Path: "out2/h", Kind: "file", Body: "<SELF>"},
+		{Path: "src-evil/sub/s", Kind: "file", Body: "<SELF>"},
 	}
 }
 
@@ -70,8 +76,10 @@ func c05Links() []TNode {
 			ns = append(ns, TNode{Path: p, Kind: "link", Target: t})
 		}
 	}
-	add("src/l", "a", "d", "d/f", "../out/f", "../out/dir", "../src-evil/secret", "../src-evil", "<W>/src/a", "<W>/out/f", "<W>/out/dir", "m", "nope", "../nope", "../out2/h", "../out/dir/l", "d/../../out/f")
-	add("src/d/l", "../a", "f", "../../out/f", "../../out/dir", "../../src-evil/secret", "../l", "<W>/out2/h")
+	add("src/l", "a", "d", "d/f", "../out/f", "../out/dir", "../src-evil/secret", "../src-evil", "../src-evil/sub", "<W>/src/a", "<W>/out/f", "<W>/out/dir", "m", "nope", "../nope", "../out2/h", "../out/dir/l", "d/../../out/f")
+	add("src/d/l", "../a", "f", "../../out/f", "../../out/dir", "../../src-evil/secret", "../l", "<W>/out2/h", "../out/f")
+	add("src/zz", "../a", "../out/f", "a")
+	add("src-evil/sub/back", "../../src/a", "s")
 	add("src/m", "../out/f", "../out/dir", "a", "l")
 	add("out/dir/l", "../../src/a", "g", "../f", "../../out2/h", "../../out2", "../../src/d", "<W>/src/a", "<W>/out/dir/g")
 	return ns
@@ -80,10 +88,11 @@ func c05Links() []TNode {
 type packOpt struct {
 	Ignore, Deref, AllowOut bool
 	UID                     int
+	Reuse                   bool // the same *Packer packed another tree first
 }
 
 func (o packOpt) String() string {
-	return fmt.Sprintf("ignore=%v deref=%v allow_out=%v uid=%d", o.Ignore, o.Deref, o.AllowOut, o.UID)
+	return fmt.Sprintf("ignore=%v deref=%v allow_out=%v uid=%d reuse=%v", o.Ignore, o.Deref, o.AllowOut, o.UID, o.Reuse)
 }
 
 // expected omissions under the built-in rules / a rule file for C02
@@ -451,7 +460,7 @@ func RunPackTrees(id, tier string) int {
 			opt := opt
 			args := make([]PackArg, len(trees))
 			pool(opt.UID).Map("pack", len(trees), func(i int) any {
-				args[i] = PackArg{Nodes: trees[i], Ignore: opt.Ignore, Deref: opt.Deref, AllowOut: opt.AllowOut, Roundtrip: id != "C20", UID: opt.UID}
+				args[i] = PackArg{Nodes: trees[i], Ignore: opt.Ignore, Deref: opt.Deref, AllowOut: opt.AllowOut, Roundtrip: id != "C20", UID: opt.UID, Reuse: opt.Reuse}
 				return args[i]
 			}, func(i int, r core.Result) {
 				var out PackOut
@@ -498,6 +507,7 @@ func RunPackTrees(id, tier string) int {
 		}
 	}
 	rootOpts := allOpts[:4]
+	reuseOpts := []packOpt{{Reuse: true}, {Deref: true, Reuse: true}, {Ignore: true, Deref: true, Reuse: true}}
 
 	if id == "C02" || id == "C20" {
 		alpha := c02Alphabet()
@@ -547,6 +557,7 @@ func RunPackTrees(id, tier string) int {
 			}
 		}
 		runSet("attribute-deviations", devTrees, allOpts)
+		runSet("trees<=2-nodes/packer-reused", combos(alpha, 2, nil), reuseOpts)
 	}
 	if id == "C05" || id == "C20" {
 		links := c05Links()
@@ -581,6 +592,13 @@ func RunPackTrees(id, tier string) int {
 			opts = []packOpt{{}, {Deref: true}, {AllowOut: true}, {Deref: true, AllowOut: true}, {Ignore: true, Deref: true}}
 		}
 		runSet(fmt.Sprintf("skeleton+<=%d-links", k), trees, opts)
+		var t1 [][]TNode
+		for _, t := range trees {
+			if len(t) <= len(c05Skeleton())+2 {
+				t1 = append(t1, t)
+			}
+		}
+		runSet("skeleton+<=2-links/packer-reused", t1, []packOpt{{Reuse: true}, {Deref: true, Reuse: true}})
 	}
 	rep.Extra["sets"] = planStats
 	switch id {
